@@ -1,5 +1,256 @@
 import PkVerif.Drv.Common
-/-! `pkmodel-c05`: stub (property not built yet). -/
+import PkVerif.Model.Index
+import PkVerif.Gen.C05
+/-! `pkmodel-c05` / `pkmodel-c06`: the indexer model behind the line protocol of harness/props/c05. -/
 namespace Pk.Drv.C05
-def machine : Machine := { σ := Unit, init := (), step := fun s _ => (s, "bad-op") }
+open Pk Pk.Index
+
+structure St where
+  defs : List (Ref × Blob) := []
+  opened : Bool := false
+  dead : Bool := false
+  withC : Bool := false
+  s : State := State.init Gen.c05SchemaVersion false
+
+def worldOf (defs : List (Ref × Blob)) : World :=
+  fun r => (defs.lookup r).getD ⟨.opaque, 0, []⟩
+
+def nat? (w : String) : Option Nat :=
+  match w.toNat? with
+  | some n => if toString n == w then some n else none
+  | none => none
+
+def tokNat? (c : Char) (w : String) : Option Nat :=
+  if w.length ≥ 2 && w.front == c then nat? (w.drop 1).toString else none
+
+def attr? (w : String) : Option Attr :=
+  if w == "m" then some .member
+  else match tokNat? 'i' w with
+    | some n => if n ≤ 3 then some (.indexed n) else none
+    | none => match tokNat? 'p' w with
+      | some n => some (.path n)
+      | none => (tokNat? 'o' w).map .other
+
+def val? (w : String) : Option Val :=
+  match tokNat? 's' w with
+  | some n => some (.str n)
+  | none => (tokNat? 'r' w).map .ref
+
+def ctype? : String → Option CType
+  | "set" => some .set | "add" => some .add | "del" => some .del | _ => none
+
+def part? (w : String) : Option Part :=
+  match w.splitOn ":" with
+  | [a, sz] =>
+    (nat? sz).bind fun n =>
+      if a == "z" then some (.hole n)
+      else match tokNat? 'c' a with
+        | some id => some (.chunk id n)
+        | none => (tokNat? 'y' a).map (fun id => .bytes id n)
+  | _ => none
+
+def listOf {α : Type} (f : String → Option α) (w : String) : Option (List α) :=
+  if w == "-" then some [] else (w.splitOn ",").mapM f
+
+def img? (w : String) : Option (Option (Nat × Nat)) :=
+  match w.splitOn "x" with
+  | [a, b] => match nat? a, nat? b with
+    | some x, some y => some (if x == 0 && y == 0 then none else some (x, y))
+    | _, _ => none
+  | _ => none
+
+def kindIs (defs : List (Ref × Blob)) (id : Ref) (p : Kind → Bool) : Bool :=
+  match defs.lookup id with
+  | some b => p b.kind
+  | none => false
+
+def isKey : Kind → Bool | .key _ => true | _ => false
+def isPn : Kind → Bool | .pn _ => true | _ => false
+def isOpaque : Kind → Bool | .opaque => true | _ => false
+def isBytes : Kind → Bool | .bytes _ => true | _ => false
+def isSSet : Kind → Bool | .sset .. => true | _ => false
+
+def partsOk (defs : List (Ref × Blob)) (ps : List Part) : Bool :=
+  ps.all fun p => match p with
+    | .chunk r _ => kindIs defs r isOpaque
+    | .bytes r _ => kindIs defs r isBytes
+    | .hole _ => true
+
+/-- a `def` line (without the leading word): the blob and whether its references are defined -/
+def parseDef (defs : List (Ref × Blob)) (ws : List String) : Option (Ref × Blob) := do
+  match ws with
+  | [id, "key", k, size, mime] =>
+    let id ← nat? id; let k ← nat? k; let size ← nat? size; let mime ← hexArg mime
+    if id == 0 || k > 1 then none else some (id, ⟨.key k, size, mime⟩)
+  | [id, "opaque", _nonce, size, mime] =>
+    let id ← nat? id; let _ ← nat? _nonce; let size ← nat? size; let mime ← hexArg mime
+    if id == 0 then none else some (id, ⟨.opaque, size, mime⟩)
+  | [id, "pn", signer, nonce, size] =>
+    let id ← nat? id; let signer ← nat? signer; let _ ← nat? nonce; let size ← nat? size
+    if id == 0 || !kindIs defs signer isKey then none else some (id, ⟨.pn signer, size, []⟩)
+  | [id, "claim", signer, pn, ct, attr, val, date, size] =>
+    let id ← nat? id; let signer ← nat? signer; let pn ← nat? pn; let ct ← ctype? ct
+    let attr ← attr? attr; let val ← val? val; let date ← nat? date; let size ← nat? size
+    let vok := match val with | .ref r => (defs.lookup r).isSome | _ => true
+    if id == 0 || !kindIs defs signer isKey || !kindIs defs pn isPn || !vok then none
+    else some (id, ⟨.claim signer pn ct attr val date, size, []⟩)
+  | [id, "del", signer, target, date, size] =>
+    let id ← nat? id; let signer ← nat? signer; let target ← nat? target; let date ← nat? date; let size ← nat? size
+    if id == 0 || !kindIs defs signer isKey || (defs.lookup target).isNone then none
+    else some (id, ⟨.del signer target date, size, []⟩)
+  | [id, "bytes", size, parts] =>
+    let id ← nat? id; let size ← nat? size; let parts ← listOf part? parts
+    if id == 0 || !partsOk defs parts then none else some (id, ⟨.bytes parts, size, []⟩)
+  | [id, "file", size, name, mtime, fsize, mime, whole, img, parts] =>
+    let id ← nat? id; let size ← nat? size; let name ← nat? name; let mtime ← nat? mtime; let fsize ← nat? fsize
+    let mime ← hexArg mime; let whole ← nat? whole; let img ← img? img; let parts ← listOf part? parts
+    if id == 0 || !partsOk defs parts then none
+    else some (id, ⟨.file name mtime fsize mime whole img parts, size, []⟩)
+  | [id, "dir", size, name, sset] =>
+    let id ← nat? id; let size ← nat? size; let name ← nat? name; let sset ← nat? sset
+    if id == 0 || !kindIs defs sset isSSet then none else some (id, ⟨.dir name sset, size, []⟩)
+  | [id, "sset", size, k, refs] =>
+    let id ← nat? id; let size ← nat? size; let refs ← listOf nat? refs
+    let merge ← (if k == "m" then some false else if k == "g" then some true else none)
+    let ok := refs.all fun r => if merge then kindIs defs r isSSet else (defs.lookup r).isSome
+    if id == 0 || !ok then none else some (id, ⟨.sset merge refs, size, []⟩)
+  | _ => none
+
+/-! printing -/
+
+def sortStrings (l : List String) : List String := sortBy (fun a b => decide (a ≤ b)) l
+
+def dedup : List String → List String
+  | a :: b :: rest => if a == b then dedup (b :: rest) else a :: dedup (b :: rest)
+  | l => l
+
+def joinOr (l : List String) (sep : String := ",") : String := if l.isEmpty then "-" else sep.intercalate l
+
+def typeName : Nat → String
+  | 1 => "permanode" | 2 => "claim" | 3 => "file" | 4 => "bytes" | 5 => "directory" | 6 => "static-set" | _ => "-"
+
+def attrStr (a1 a2 : Nat) : String :=
+  match a1 with
+  | 0 => s!"i{a2}" | 1 => "m" | 2 => s!"p{a2}" | 3 => s!"o{a2}" | _ => "?"
+
+def valStr (v1 v2 : Nat) : String := if v1 == 0 then s!"s{v2}" else s!"r{v2}"
+
+def yn (n : Nat) : String := if n == 1 then "Y" else "N"
+
+def ctStr : Nat → String
+  | 0 => "set" | 1 => "add" | 2 => "del" | _ => "?"
+
+def rowStr : Row → String
+  | ([0], [v]) => s!"schemaversion={v}"
+  | ([1, b], size :: tc :: mime) =>
+    s!"meta|b{b}={size}," ++ (if tc == 0 then "m:" ++ toHexString mime else "t:" ++ typeName tc)
+  | ([2, b], [size, f]) => s!"have|b{b}={size},{f}"
+  | ([3, h, n], _) => s!"missing|b{h},b{n}=1"
+  | ([4, s], [kid]) => s!"signerkeyid|b{s}=K{kid}"
+  | ([5, pn, kid, date, cl], [ct, a1, a2, v1, v2, signer]) =>
+    s!"claim|b{pn},K{kid},{date},b{cl}=" ++
+      (if ct == 3 then "delete,-,-" else s!"{ctStr ct},{attrStr a1 a2},{valStr v1 v2}") ++ s!",b{signer}"
+  | ([6, kid, date, cl], [pn]) => s!"recpn|K{kid},{date},b{cl}=b{pn}"
+  | ([7, kid, t, cl], [date, base, act, sfx]) => s!"signertargetpath|K{kid},b{t},b{cl}={date},b{base},{yn act},{sfx}"
+  | ([8, kid, base, sfx, date, cl], [act, t]) => s!"path|K{kid},b{base},{sfx},{date},b{cl}={yn act},b{t}"
+  | ([9, w, f], _) => s!"wholetofile|w{w},b{f}=1"
+  | ([10, f], 0 :: fsize :: name :: whole :: mime) => s!"fileinfo|b{f}={fsize},{name},{toHexString mime},w{whole}"
+  | ([10, f], [1, count, name]) => s!"fileinfo|b{f}={count},{name},-,-"
+  | ([11, f], [t]) => s!"filetimes|b{f}=" ++ (if t == 0 then "-" else toString t)
+  | ([12, kid, a1, a2, v1, v2, date, cl], [pn]) =>
+    s!"signerattrvalue|K{kid},{attrStr a1 a2},{valStr v1 v2},{date},b{cl}=b{pn}"
+  | ([13, t, date, d], _) => s!"deleted|b{t},{date},b{d}=-"
+  | ([14, child, parent, cl], _) => s!"edgeback|b{child},b{parent},b{cl}=permanode,-"
+  | ([15, f], [w, h]) => s!"imagesize|b{f}={w},{h}"
+  | ([16, d, c], _) => s!"dirchild|b{d},b{c}=1"
+  | _ => "?row"
+
+def dumpStr (s : State) : String := joinOr (sortStrings (s.rows.map rowStr)) ";"
+
+def pendStr (s : State) : String :=
+  let a := dedup (sortStrings (s.needs.map fun p => s!"b{p.1}>b{p.2}"))
+  let b := dedup (sortStrings (s.neededBy.map fun p => s!"b{p.1}<b{p.2}"))
+  let c := dedup (sortStrings (s.ready.map fun r => s!"b{r}"))
+  s!"needs={joinOr a};neededby={joinOr b};ready={joinOr c}"
+
+def optVal : Option (Nat × Nat) → String
+  | some (v1, v2) => valStr v1 v2
+  | none => "-"
+
+def timeStr (t : Nat) : String := if t == 0 then "-" else toString t
+
+def obsStr (o : Obs) : String :=
+  let metas := o.metas.filterMap fun p => match p.2 with
+    | some (size :: tc :: _) => some s!"b{p.1}:{size},{typeName tc}"
+    | some _ => some s!"b{p.1}:?"
+    | none => none
+  let dels := o.deleted.filterMap fun p =>
+    if p.2.1 || p.2.2 then some (s!"b{p.1}:" ++ (if p.2.1 then "i" else "") ++ (if p.2.2 then "c" else "")) else none
+  let pns := o.pns.map fun p =>
+    s!"b{p.pn}:c={joinOr (p.claims.map fun c => s!"b{c}")}:t={timeStr p.modtime}:y={timeStr p.anytime}:a={optVal p.tag},{optVal p.title},{optVal p.content}"
+  let refs := fun (l : List Ref) => joinOr (l.map fun r => s!"b{r}")
+  (if o.bad then "BAD;" else "") ++
+  s!"M={joinOr metas};D={joinOr dels};P={joinOr pns "/"};L={refs o.byMod};C={refs o.byCreated}"
+
+/-! the machine -/
+
+def fuelOf (st : St) : Nat := 4 * st.defs.length + 8
+
+def ids (st : St) : List Ref := sortBy (fun a b => decide (a ≤ b)) (st.defs.map (·.1))
+
+def pnIds (st : St) : List Ref := (ids st).filter fun r => kindIs st.defs r isPn
+
+def recvDrain (st : St) (s : State) (b : Ref) : State :=
+  State.drain (worldOf st.defs) (fuelOf st * fuelOf st) (s.receive (worldOf st.defs) b)
+
+def known (st : St) (w : String) : Option Ref :=
+  (nat? w).bind fun id => if (st.defs.lookup id).isSome then some id else none
+
+def step (st : St) (ws : List String) : St × String :=
+  if st.dead then (st, "bad-op") else
+  match ws with
+  | "def" :: rest =>
+    match parseDef st.defs rest with
+    | some (id, b) =>
+      if (st.defs.lookup id).isSome then (st, "bad-op") else ({ st with defs := st.defs ++ [(id, b)] }, "ok")
+    | none => (st, "bad-op")
+  | ["open", kv, c] =>
+    if st.opened || !(["mem", "leveldb", "sqlite", "kvfile"].contains kv) || !(c == "0" || c == "1") then (st, "bad-op")
+    else ({ st with opened := true, withC := c == "1", s := State.init Gen.c05SchemaVersion (c == "1") }, "ok")
+  | _ =>
+    if !st.opened then (st, "bad-op") else
+    match ws with
+    | ["src", id] =>
+      match known st id with
+      | some b => ({ st with s := st.s.srcAdd b }, "ok")
+      | none => (st, "bad-op")
+    | ["recv", id] =>
+      match known st id with
+      | some b => ({ st with s := recvDrain st st.s b }, "ok")
+      | none => (st, "bad-op")
+    | ["par", gs] =>
+      match (gs.splitOn "/").mapM (fun g => if g == "-" then none else listOf (known st) g) with
+      | some groups =>
+        if groups.any (·.isEmpty) then (st, "bad-op") else
+        let s := groups.flatten.foldl (fun s b => recvDrain st (s.srcAdd b) b) st.s
+        ({ st with s := s }, "ok")
+      | none => (st, "bad-op")
+    | ["dump"] => (st, dumpStr st.s)
+    | ["pend"] => (st, pendStr st.s)
+    | ["restart"] => ({ st with s := st.s.restart Gen.c05SchemaVersion }, "ok")
+    | ["reindex"] =>
+      let f := fuelOf st
+      let s := State.reindexAll (worldOf st.defs) Gen.c05SchemaVersion (f * f) st.s (sortBy (fun a b => decide (a ≤ b)) st.s.src)
+      ({ st with s := s }, if s.needs.isEmpty then "ok" else "needed")
+    | ["obs"] =>
+      match st.s.observe (ids st) (pnIds st) (fuelOf st) with
+      | some o => (st, obsStr o)
+      | none => (st, "bad-op")
+    | ["obsr"] =>
+      if st.withC then (st, obsStr (observeReload st.s.rows (ids st) (pnIds st) (fuelOf st))) else (st, "bad-op")
+    | ["close"] => ({ st with dead := true }, "ok")
+    | _ => (st, "bad-op")
+
+def machine : Machine := { σ := St, init := {}, step := step }
+
 end Pk.Drv.C05
